@@ -29,8 +29,9 @@ fn uint_out(w: u32, x: &str) -> String {
 }
 
 fn range_text(f: &Field) -> String {
+    // single-bit entries of a list may be written `n` or `n..=n`
     let one = |&(lo, hi): &(u32, u32), in_list: bool| -> String {
-        if lo == hi && in_list {
+        if lo == hi && in_list && !f.qualified {
             format!("{lo}")
         } else {
             format!("{lo}..={hi}")
@@ -44,20 +45,32 @@ fn range_text(f: &Field) -> String {
     }
 }
 
+/// name used after `with_` / `set_`: a raw identifier loses its `r#`
+pub fn setter_stem(f: &Field) -> &str {
+    f.name.strip_prefix("r#").unwrap_or(&f.name)
+}
+
 fn attr_text(f: &Field) -> String {
     let stride = match f.array {
         Some(a) if a.explicit => Some(format!("stride = {}", a.stride)),
         _ => None,
     };
     let single_bit = f.ranges.len() == 1 && f.ranges[0].0 == f.ranges[0].1;
-    let (name, range) = if f.kind == Kind::Bool || (single_bit && f.qualified) {
+    let all_single = f.ranges.iter().all(|r| r.0 == r.1);
+    // the syntactic variants the parser accepts for the same meaning:
+    //   one bit:        bit(n)   or bits(n..=n)      (bool and 1-bit types alike)
+    //   list of bits:   bits([a, b]) or bit([a, b])
+    let (name, range) = if single_bit && ((f.kind == Kind::Bool) != f.qualified) {
         ("bit", format!("{}", f.ranges[0].0))
+    } else if f.ranges.len() > 1 && all_single && f.qualified {
+        let parts: Vec<String> = f.ranges.iter().map(|r| format!("{}", r.0)).collect();
+        ("bit", format!("[{}]", parts.join(", ")))
     } else {
         ("bits", range_text(f))
     };
     let access = f.access.text().to_string();
-    // the parser takes the arguments in any order
-    let order: [usize; 3] = match f.attr_order {
+    // the parser takes the arguments in any order, with or without a trailing comma
+    let order: [usize; 3] = match f.attr_order % 6 {
         1 => [0, 2, 1],
         2 => [1, 0, 2],
         3 => [2, 0, 1],
@@ -67,7 +80,8 @@ fn attr_text(f: &Field) -> String {
     };
     let parts = [Some(range), Some(access), stride];
     let args: Vec<String> = order.iter().filter_map(|&k| parts[k].clone()).collect();
-    format!("#[{}({})]", name, args.join(", "))
+    let trailing = if f.attr_order >= 6 { "," } else { "" };
+    format!("#[{}({}{})]", name, args.join(", "), trailing)
 }
 
 fn elem_type(f: &Field, j: usize) -> String {
@@ -83,9 +97,9 @@ fn elem_type(f: &Field, j: usize) -> String {
         }
         Kind::Native => format!("u{w}"),
         Kind::Signed => format!("i{w}"),
-        Kind::EnumExh => format!("E{j}"),
-        Kind::EnumOpt { .. } => format!("Option<E{j}>"),
-        Kind::Nested => format!("N{j}"),
+        Kind::EnumExh => format!("{}E{j}", if f.qualified { "self::" } else { "" }),
+        Kind::EnumOpt { .. } => format!("Option<{}E{j}>", if f.qualified { "self::" } else { "" }),
+        Kind::Nested => format!("{}N{j}", if f.qualified { "self::" } else { "" }),
     }
 }
 
@@ -234,9 +248,9 @@ pub fn layout_module(l: &Layout) -> String {
     for (j, f) in l.fields.iter().enumerate() {
         if f.access.writable() {
             let call = if f.array.is_some() {
-                format!("self.0.with_{}(i, in_{j}(v))", f.name)
+                format!("self.0.with_{}(i, in_{j}(v))", setter_stem(f))
             } else {
-                format!("self.0.with_{}(in_{j}(v))", f.name)
+                format!("self.0.with_{}(in_{j}(v))", setter_stem(f))
             };
             let _ = writeln!(o, "            {j} => Box::new(G({call})),");
         }
@@ -246,9 +260,9 @@ pub fn layout_module(l: &Layout) -> String {
     for (j, f) in l.fields.iter().enumerate() {
         if f.access.writable() {
             let call = if f.array.is_some() {
-                format!("self.0.set_{}(i, in_{j}(v))", f.name)
+                format!("self.0.set_{}(i, in_{j}(v))", setter_stem(f))
             } else {
-                format!("self.0.set_{}(in_{j}(v))", f.name)
+                format!("self.0.set_{}(in_{j}(v))", setter_stem(f))
             };
             let _ = writeln!(o, "            {j} => {call},");
         }
@@ -299,12 +313,12 @@ pub fn builder_module(l: &Layout) -> String {
         }
         match f.array {
             None => {
-                let _ = writeln!(o, "        .with_{}(in_{j}(a[{k}]))", f.name);
+                let _ = writeln!(o, "        .with_{}(in_{j}(a[{k}]))", setter_stem(f));
                 k += 1;
             }
             Some(a) => {
                 let elems: Vec<String> = (0..a.count as usize).map(|e| format!("in_{j}(a[{}])", k + e)).collect();
-                let _ = writeln!(o, "        .with_{}([{}])", f.name, elems.join(", "));
+                let _ = writeln!(o, "        .with_{}([{}])", setter_stem(f), elems.join(", "));
                 k += a.count as usize;
             }
         }
